@@ -33,6 +33,7 @@ class ConcreteCtx:
         self.missing = []
         self.notes = []
         self.witnesses = {}
+        self.stubbed = []  # names of library results replaced by model constants
 
     def _name(self, base):
         k = self.names.get(base, 0)
@@ -46,12 +47,18 @@ class ConcreteCtx:
             return default
         return self.model[n]
 
+    def has(self, name):
+        """Would the next symbol called ``name`` be found in the model?"""
+        k = self.names.get(name, 0)
+        n = name if k == 0 else f"{name}#{k}"
+        return n in self.model
+
     def real(self, name):
         return float(model_float(self._get(name, 0.0)))
 
     def int(self, name):
         v = model_float(self._get(name, 0))
-        return int(v)
+        return int(v) if float(v).is_integer() else float(v)
 
     def bool(self, name):
         return bool(self._get(name, False))
